@@ -114,3 +114,43 @@ Proof.
   apply Permutation_map. apply Permutation_sym. apply isort_perm.
 Qed.
 Print Assumptions C13_tokens_resolve.
+
+(* ---------- what the finished map reports ---------- *)
+From SM Require Import Proofs.ContentsProofs Proofs.FlattenContents.
+Lemma fold_ignore_scalars l : forall m,
+  let m' := fold_left (fun m id => add_to_ignore_list id m) l m in
+  sm_file m' = sm_file m /\ sm_root m' = sm_root m /\ sm_debug_id m' = sm_debug_id m.
+Proof. induction l as [|x l IH]; intros m; cbn [fold_left]; [auto|]. destruct (IH (add_to_ignore_list x m)) as (H1 & H2 & H3). cbn in *. auto. Qed.
+
+Theorem C13_finished_reports b :
+  let m := into_sourcemap b in
+  sm_sources m = b_sources b /\ sm_names m = b_names b /\ sm_file m = b_file b /\ sm_debug_id m = b_debug_id b
+  /\ sm_root m = b_root b /\ sm_tokens m = isort tok_key (b_tokens b)
+  /\ (forall j, get_source_contents m j = b_get_source_contents b j)
+  /\ (forall j, In j (sm_ignore m) <-> In j (b_ignore b)).
+Proof.
+  cbn zeta. split; [apply into_sourcemap_sources|].
+  assert (Hf : sm_names (into_sourcemap b) = b_names b /\ sm_tokens (into_sourcemap b) = isort tok_key (b_tokens b)).
+  { unfold into_sourcemap. match goal with |- context [fold_left ?f ?l ?m] => destruct (fold_ignore_fields l m) as (H1 & _ & H3 & _) end.
+    cbn [set_source_root set_debug_id sm_new sm_tokens sm_names] in *. split; [exact H3|]. rewrite H1. destruct (b_root b) as [r|]; [destruct (is_nil r)|]; reflexivity. }
+  assert (Hs : sm_file (into_sourcemap b) = b_file b /\ sm_root (into_sourcemap b) = b_root b /\ sm_debug_id (into_sourcemap b) = b_debug_id b).
+  { unfold into_sourcemap. match goal with |- context [fold_left ?f ?l ?m] => destruct (fold_ignore_scalars l m) as (H1 & H2 & H3) end.
+    cbn [set_source_root set_debug_id sm_new sm_file sm_root sm_debug_id] in *. auto. }
+  destruct Hf as [Hn Ht]. destruct Hs as (Hfile & Hroot & Hdbg).
+  repeat split; try assumption.
+  - apply into_sourcemap_contents.
+  - apply into_sourcemap_ignore.
+  - apply into_sourcemap_ignore.
+Qed.
+
+(* the builder's setters: the last value set is the value held (so, with the theorem above, the value reported) *)
+Theorem C13_setters_last b :
+  (forall f, b_file (b_set_file f b) = f) /\ (forall d, b_debug_id (b_set_debug_id d b) = d) /\ (forall r, b_root (b_set_source_root r b) = r)
+  /\ (forall id j, In j (b_ignore (b_add_to_ignore_list id b)) <-> j = id \/ In j (b_ignore b))
+  /\ (forall id c b', b_set_source_contents id c b = Ok b' -> forall j, b_get_source_contents b' j = if j =? id then c else b_get_source_contents b j).
+Proof.
+  repeat split; try reflexivity.
+  - cbn [b_add_to_ignore_list b_ignore]. apply In_set_insert.
+  - cbn [b_add_to_ignore_list b_ignore]. apply In_set_insert.
+  - intros id c b' H j. apply (set_contents_get id c b b' H).
+Qed.
